@@ -41,6 +41,11 @@ pub struct RevPlan {
     /// the cross-reference stream of this revision takes the object number of the previous
     /// revision's cross-reference stream (an update may rewrite any object, also that one)
     pub reuse_xref_num: bool,
+    /// object streams of this revision keep a superseded copy of their first member in front
+    pub stale_member: bool,
+    /// stream objects of this revision give their /Length as a reference to an integer object
+    /// (a fresh number) that is stored directly (1) or in an object stream (2); 0 = direct integer
+    pub length_ref: u8,
 }
 
 #[derive(Clone, Debug, PartialEq)]
@@ -87,7 +92,7 @@ impl History {
                     .collect();
                 json!({"mentions": m, "xref_stream": r.xref_stream, "w_extra": r.w_extra, "w0_zero": r.w0_zero, "cuts": r.cuts, "xref_filter": filt_name(r.xref_filter),
                     "objstm_filter": filt_name(r.objstm_filter), "trailing_ws": r.trailing_ws, "two_objstms": r.two_objstms, "move_root": r.move_root,
-                    "free_old_root": r.free_old_root, "reuse_xref_num": r.reuse_xref_num})
+                    "free_old_root": r.free_old_root, "reuse_xref_num": r.reuse_xref_num, "stale_member": r.stale_member, "length_ref": r.length_ref})
             })
             .collect();
         json!({"junk": hex(&self.junk), "nvals": self.nvals, "revs": revs, "relaxed_reuse": self.relaxed_reuse})
@@ -123,6 +128,8 @@ impl History {
                 move_root: r.get("move_root")?.as_bool()?,
                 free_old_root: r.get("free_old_root").and_then(|x| x.as_bool()).unwrap_or(false),
                 reuse_xref_num: r.get("reuse_xref_num").and_then(|x| x.as_bool()).unwrap_or(false),
+                stale_member: r.get("stale_member").and_then(|x| x.as_bool()).unwrap_or(false),
+                length_ref: r.get("length_ref").and_then(|x| x.as_u64()).unwrap_or(0) as u8,
             });
         }
         Some(History { junk: unhex(j.get("junk")?.as_str()?)?, nvals: j.get("nvals")?.as_u64()? as u32, revs, relaxed_reuse: j.get("relaxed_reuse").and_then(|x| x.as_bool()).unwrap_or(false) })
@@ -174,7 +181,20 @@ pub fn compile(h: &History) -> DocSpec {
             let st = status.get(&n).cloned().unwrap_or(St::Undefined);
             let g = gen.get(&n).cloned().unwrap_or(0);
             match a {
-                Action::Direct(body) => {
+                Action::Direct(mut body) => {
+                    if let Body::Stream { data, len_ref, .. } = &mut body {
+                        if r.length_ref > 0 {
+                            let ln = next;
+                            next += 1;
+                            *len_ref = Some(ln);
+                            let v = Val::Int(data.len() as i64);
+                            if r.length_ref == 2 && r.xref_stream {
+                                want_compressed.push((ln, v));
+                            } else {
+                                slots.insert(ln, Slot::Direct { gen: 0, body: Body::Plain(v) });
+                            }
+                        }
+                    }
                     slots.insert(n, Slot::Direct { gen: g, body });
                     status.insert(n, St::InUse);
                 }
@@ -210,7 +230,7 @@ pub fn compile(h: &History) -> DocSpec {
                 slots.insert(n, Slot::Compressed { stm: nums[i % k], val: v });
             }
             for n in nums {
-                objstms.push(ObjStmSpec { num: n, filter: r.objstm_filter, trailing_ws: r.trailing_ws });
+                objstms.push(ObjStmSpec { num: n, filter: r.objstm_filter, trailing_ws: r.trailing_ws, stale_first: r.stale_member });
             }
         }
         let style = if r.xref_stream {
@@ -320,6 +340,8 @@ pub fn gen_history(rng: &mut Rng, tier: Tier) -> History {
             move_root: ri > 0 && rng.chance(1, 6),
             free_old_root: rng.chance(1, 2),
             reuse_xref_num: rng.chance(1, 4),
+            stale_member: rng.chance(1, 5),
+            length_ref: if rng.chance(1, 3) { 1 + rng.below(2) as u8 } else { 0 },
         });
     }
     let junk = if rng.chance(1, 5) { (0..rng.usize(64)).map(|_| *rng.pick(b"xyz \n012")).collect() } else { vec![] };
@@ -584,7 +606,7 @@ impl C02 {
             // simpler styles
             for i in 0..best.revs.len() {
                 let r = &best.revs[i];
-                if !r.cuts.is_empty() || r.w_extra != [0, 0, 0] || r.xref_filter != StmFilter::None || r.objstm_filter != StmFilter::None || r.two_objstms || r.move_root || r.w0_zero || r.reuse_xref_num {
+                if !r.cuts.is_empty() || r.w_extra != [0, 0, 0] || r.xref_filter != StmFilter::None || r.objstm_filter != StmFilter::None || r.two_objstms || r.move_root || r.w0_zero || r.reuse_xref_num || r.stale_member {
                     let mut c = best.clone();
                     let rr = &mut c.revs[i];
                     rr.cuts.clear();
@@ -595,6 +617,7 @@ impl C02 {
                     rr.move_root = false;
                     rr.w0_zero = false;
                     rr.reuse_xref_num = false;
+                    rr.stale_member = false;
                     if try_c(c, &mut best, &mut detail, &mut budget) {
                         progress = true;
                         break;
